@@ -19,7 +19,7 @@ import re
 from core import deref_value, AbsPaths, norm, _as_int
 
 NONE = ("variant", "None", ())
-ITERS = ("iterv", "enum", "arr", "flat", "fromfn", "mapped", "filtered")
+ITERS = ("iterv", "itermut", "enum", "arr", "flat", "fromfn", "mapped", "filtered")
 
 
 def some(v):
@@ -92,7 +92,8 @@ def o_iter(ev, st, t, site):
         if v is not None and v[0] == "variant" and v[1] == "[]":
             return _set_dest(st, t, ("arr", tuple(("refval", x) for _, x in v[2]), 0))
         return False
-    return _set_dest(st, t, ("iterv", lid, 0))
+    # `iter_mut()`: the items designate the elements (a store through one lands in the list)
+    return _set_dest(st, t, ("itermut" if norm(site.name).endswith("iter_mut") else "iterv", lid, 0))
 
 
 def o_into_iter(ev, st, t, site):
@@ -102,7 +103,8 @@ def o_into_iter(ev, st, t, site):
     if v[0] in ITERS:
         return _set_dest(st, t, v)
     if v[0] == "seq":
-        return _set_dest(st, t, ("iterv", v[1], 0))
+        by_mut = re.match(r"^<&('\w+ )?mut ", site.name) is not None
+        return _set_dest(st, t, ("itermut" if by_mut else "iterv", v[1], 0))
     if v[0] == "variant" and v[1] == "[]":
         return _set_dest(st, t, ("arr", tuple(x for _, x in v[2]), 0))
     return False
@@ -130,6 +132,13 @@ def _step(ev, st, it):
             return False, it
         if it[2] < len(l[1]):
             return ("refval", l[1][it[2]]), ("iterv", it[1], it[2] + 1)
+        return None, it
+    if it[0] == "itermut":
+        l = st.get(-it[1])
+        if l is None:
+            return False, it
+        if it[2] < len(l[1]):
+            return ("elemref", it[1], it[2]), ("itermut", it[1], it[2] + 1)
         return None, it
     if it[0] == "arr":
         if it[2] < len(it[1]):
@@ -425,6 +434,34 @@ def o_extend(ev, st, t, site):
     return False
 
 
+def o_collect(ev, st, t, site):
+    """`iter.collect()` into a list (Vec / VecDeque): the iterator is run to its end into a fresh list."""
+    it = _const_value(ev, _deref(st, _arg(ev, st, t, 0)))
+    if it is not None and it[0] == "seq":
+        it = ("iterv", it[1], 0)
+    if it is None or it[0] not in ITERS:
+        return False
+    try:
+        ty = ev.fn.locals[t["dest"]["l"]]
+    except Exception:
+        ty = ""
+    if not re.search(r"\b(Vec|VecDeque)<", ty) or re.search(r"^(std::result::Result|std::option::Option)<", ty):
+        return False
+    n = st.get(-1000)
+    nid = (int(n[1]) if n else 100) + 1
+    st[-1000] = ("const", str(nid))
+    out = []
+    for _ in range(64):
+        item, it = _step(ev, st, it)
+        if item is False:
+            return False
+        if item is None:
+            st[-nid] = ("list", tuple(out))
+            return _set_dest(st, t, ("seq", nid))
+        out.append(_deref(st, item) if item[0] in ("ref", "refmut", "elemref") else item)
+    return False
+
+
 def _iter_arg(ev, st, t):
     raw = _arg(ev, st, t, 0)
     it = _const_value(ev, _deref(st, raw))
@@ -630,6 +667,7 @@ RAW_ORACLES = [
     (r"Iterator.*::all$", o_all),
     (r"Iterator.*::for_each$", o_for_each),
     (r"Iterator.*::count$", o_count),
+    (r"Iterator.*::collect$|FromIterator.*::from_iter$", o_collect),
     (r"IpVersionExt.*::version$|dns::.*::version$", o_version),
     (r"SocketAddr::is_ipv[46]$|IpAddr::is_ipv[46]$", o_is_ipv),
     (r"VecDeque.*::remove$|Vec.*::remove$", o_remove),
